@@ -104,6 +104,14 @@ class C01(Prop):
                     op = r.choice(pool)
                     world = {"zone": zone, "now": now, "reported": reported, "irset": irset}
                     args = ops.gen_args(op, r, world, hostile=True)
+                    if r.random() < 0.08:
+                        # values far outside the documented range that the client still accepts and writes
+                        wild = r.choice([255, 256, 4095, 4096, 65535, 65536, 1 << 20, 70000, 300])
+                        if op == "set_position":
+                            args = {"position": wild}
+                        elif op == "control_breeze":
+                            args = dict(args, target=wild)
+                        acc.count("ops_with_wild_values")
                     dead = False
                     if r.random() < 0.3:
                         x = r.random()
